@@ -328,8 +328,62 @@ def run(ctx, out):
                 "--target-directory, --glob patterns selecting the same sources, both drivers, neutral options (-v, -f, --no-progress, "
                 "-w 0 = one worker per CPU), runs confined to ONE usable CPU, runs in which one call fails (ENOENT/EACCES/EIO/ENOTDIR at the "
                 "n-th open / stat / listing / mkdir / symlink / readlink): whole-sandbox snapshot vs an "
-                "independent Python statement of cp's mapping rule and a frame check; non-trivial = >=3 entries; distinct by case")
+                "independent Python statement of cp's mapping rule and a frame check; the destination matrix (DestMatrix.v); operands "
+                "that are links (copied as links, never descended into, whatever they point at from their new place); non-trivial = >=3 entries; distinct by case")
     run_walker_r0(ctx, out)
     run_copies(ctx, out)
     import destmatrix
     destmatrix.run(ctx, out, "C02", opts=["none", "backup"])
+    run_link_operands(ctx, out)
+
+
+def run_link_operands(ctx, out):
+    """The operand itself is a symbolic link (no -L): it is re-created as a link with the same text under its own name and
+    NOT descended into — whatever lies where the fresh link points from its new place (a directory of the destination
+    that happens to carry the target's name, with files of the same names in it) is not a mapped target and stays as it is."""
+    rng = ctx.rng
+    quick = ctx.tier == "quick"
+    sup = core.build_sup()
+    d0 = ctx.work.fresh("c02linkop")
+    k = 0
+    for driver in ("parfile", "parblock"):
+        for target in ("dir", "file"):
+            for text in ("rel", "abs"):
+                for extra in ([], ["--backup", "numbered"], ["-n"]):
+                    for hold in ((False, True) if not quick else (rng.random() < 0.5,)):
+                        k += 1
+                        d = os.path.join(d0, "l%d" % k)
+                        os.makedirs(os.path.join(d, "realdir", "sub"))
+                        os.makedirs(os.path.join(d, "dest", "realdir", "sub"))
+                        open(os.path.join(d, "realdir", "a"), "wb").write(b"source a")
+                        open(os.path.join(d, "realdir", "sub", "b"), "wb").write(b"source b")
+                        open(os.path.join(d, "realfile"), "wb").write(b"source file")
+                        # what the link would designate from inside the destination: entries NO source maps onto
+                        open(os.path.join(d, "dest", "realdir", "a"), "wb").write(b"precious a")
+                        open(os.path.join(d, "dest", "realdir", "sub", "b"), "wb").write(b"precious b")
+                        open(os.path.join(d, "dest", "realfile"), "wb").write(b"precious file")
+                        real = "realdir" if target == "dir" else "realfile"
+                        os.symlink(real if text == "rel" else os.path.join(d, real), os.path.join(d, "thelink"))
+                        before = xcp.snapshot(os.fsencode(d))
+                        argv = [ctx.bins["xcp"], "-r", "--driver", driver, "-w", str(rng.choice([1, 2, 4]))] + extra + ["thelink", "dest"]
+                        rules = [("hold", 150, 0, "symlink", 0, "*"), ("hold", 150, 0, "symlinkat", 0, "*")] if hold else []
+                        r = xcp.run_supervised(sup, argv, d, d, rules=rules, tag="k", timeout_ms=30000)
+                        after = xcp.snapshot(os.fsencode(d))
+                        out.case(("link-operand", driver, target, text, tuple(extra), hold), True)
+                        out.count("link_operands")
+                        rep = dict(argv=argv[1:], link_text=os.readlink(os.path.join(d, "thelink")), exit=r.exit, stderr=r.stderr[-300:],
+                                   link_creation_held=hold)
+                        changed = [(p, a, b) for (p, a, b) in xcp.snap_diff(before, after, ignore=("ino", "nlink", "blocks", "atime_ns"))
+                                   if not p.startswith(b".sup") and p not in (b"", b"dest")]
+                        problem = None
+                        for (p, a, b) in changed:
+                            if p != b"dest/thelink":
+                                problem = "%r, which no source entry maps onto, was %s" % (p, "created" if a is None else "removed" if b is None else "changed")
+                                break
+                        if not problem and r.exit == 0:
+                            ent = after.get(b"dest/thelink")
+                            if ent is None or ent["kind"] != "link" or ent["link"] != os.fsencode(os.readlink(os.path.join(d, "thelink"))) and ent["link"] != os.readlink(os.path.join(d, "thelink")):
+                                problem = "exit 0 but dest/thelink is not the link (it is %r)" % (ent and (ent["kind"], ent.get("link")))
+                        if problem:
+                            out.violation("link operand (to a %s, %s text)%s: %s" % (target, text, " " + " ".join(extra) if extra else "", problem), rep)
+                        shutil.rmtree(d, ignore_errors=True)
